@@ -169,7 +169,12 @@ class Flow:
             return self._comp(e, st)
         if isinstance(e, ast.Lambda):
             return st
-        if isinstance(e, (ast.Await, ast.Yield, ast.YieldFrom)):
+        if isinstance(e, (ast.Yield, ast.YieldFrom)):
+            # a generator body: the yielded expression is evaluated here (whatever it may raise is raised when the consumer asks for the
+            # element; for "may this escape / may this write" that is the same question); what comes back from the consumer is unknown
+            s1 = self.ev(e.value, st) if e.value is not None else st
+            return d.expr(e, s1, self) if s1 is not None else None
+        if isinstance(e, ast.Await):
             raise AnalysisError(f"{self.func.loc(e)}: unsupported construct {type(e).__name__} in {self.func.qname}")
         if isinstance(e, ast.NamedExpr):
             s1 = self.ev(e.value, st)
